@@ -122,7 +122,14 @@ def r14_1(ctx) -> None:
     ctx.count("R14.1", n, 2, "return paths of get_by_kid")
 
 
-def r14_2(ctx, rule: str = "R14.2") -> None:
+def _has_method(eng, fullname: str, meth: str) -> bool:
+    ci = eng.cg._fullname_to_class.get(fullname)
+    if ci is None:
+        return fullname not in ("builtins.dict", "builtins.str", "builtins.bytes", "builtins.list", "builtins.tuple", "builtins.int", "builtins.bool", "builtins.None")  # foreign class: not decided
+    return ci.lookup(meth) is not None
+
+
+def r14_2(ctx, rule: str = "R14.2", within: Optional[Set[FunctionInfo]] = None) -> None:
     eng = ctx.eng
     P = eng.prog
     gk = P.func("jwk:guess_key")
@@ -197,9 +204,20 @@ def r14_2(ctx, rule: str = "R14.2") -> None:
             continue
         a = eng.cg.arg_for_param(s, gk, urp)
         owner = s.fn.parent or s.fn
+        if within is not None and owner not in within:
+            continue  # a call site of an operation the property that borrows this rule does not speak about
         is_c = owner in cons and owner not in prod
         is_p = owner in prod and owner not in cons
         n += 1
+        # the object handed over is one whose headers() is the header set of the token part being processed (the kid is read from it and
+        # written back into it): the type checker's type of the argument has a headers method
+        oa = eng.cg.arg_for_param(s, gk, gk.pos_params[1]) if len(gk.pos_params) > 1 else None
+        if oa is not None:
+            td = eng.types.of(s.fn.module, oa)
+            if td.known and not td.any:
+                lacks = [c for c in td.classes if not _has_method(eng, c, "headers")]
+                ctx.check(not lacks, rule, s.fn, s.node, f"{s.fn.short} :: object of {norm(s.node)[:40]}", f"guess_key is handed `{norm(oa)[:40]}` of type {lacks}: that has no headers() - "
+                          "a key set or a key callback cannot read the kid from it", "an object with headers() / set_kid()", construct=f"guess_key object at {s.fn.short}")
         if is_c:
             ctx.check(a is None or is_const(a, False), rule, s.fn, s.node, f"{s.fn.short} :: {norm(s.node)[:50]}", "a consuming operation may pick a random key from the set instead of the one named by kid",
                       "use_random absent / False", construct=f"use_random at consume site {s.fn.short}")
@@ -208,7 +226,7 @@ def r14_2(ctx, rule: str = "R14.2") -> None:
                       "use_random=True", construct=f"use_random at produce site {s.fn.short}")
         else:
             ctx.fail(rule, s.fn, s.node, "guess_key is called from a function shared by producing and consuming operations: use_random cannot be decided", construct=f"shared guess_key site {s.fn.short}")
-    ctx.count(rule, n, 12, "guess_key call sites")
+    ctx.count(rule, n, 12 if within is None else 2, "guess_key call sites")
 
 
 def r14_10(ctx) -> None:
